@@ -32,7 +32,7 @@ func (C14) Explore(x *kernel.Explorer, seed uint64) {
 	r := kernel.NewRNG(seed, 0xc14)
 	for i := 0; i < 4 && !x.Expired(); i++ {
 		plan := &kernel.Plan{Prop: "C14", Seed: kernel.Mix(seed, uint64(i)), Swarm: map[string]int64{
-			"chunk": 0, "colseed": int64(r.Uint32()), "cells": int64(r.Intn(2)), "mysql": int64(r.Intn(3) / 2), "depeof": int64(r.Intn(2)), "wyield": int64(r.Intn(2))}}
+			"chunk": 0, "colseed": int64(r.Uint32()), "cells": int64(r.Intn(2)), "mysql": int64(r.Intn(3) / 2), "depeof": int64(r.Intn(2)), "rawmy": int64(r.Intn(2)), "reexec": int64(r.Intn(2)), "wyield": int64(r.Intn(2))}}
 		n := 2 + r.Intn(6)
 		for j := 0; j < n; j++ {
 			plan.Ops = append(plan.Ops, kernel.Op{ID: j + 1, Kind: r.Pick("insert", "select", "select-x", "insert-x", "update", "wide", "wide-x"), A: []int64{int64(r.Intn(50))}})
